@@ -56,6 +56,7 @@ type Env struct {
 // NewEnv creates an environment with its own file set and scratch dir.
 func NewEnv() *Env {
 	EnsureFakes()
+	core.RegisterFakePackage(SharedPkgPath, SharedPkgSource)
 	return &Env{Fset: token.NewFileSet(), Work: core.WorkDir()}
 }
 
@@ -136,6 +137,8 @@ type DrawOpts struct {
 	OnlyPkgs  []string // restrict to these corpus packages (nil = all)
 	MinMuts   int
 	NoKernels bool
+	// NoSplit keeps kernel programs in one file (default: one in four is split into 2-3 files).
+	NoSplit bool
 	// FreshCorpus re-loads a chosen corpus package instead of using the per-process cached
 	// (shared, hence corruptible by a mutating checker) syntax tree.
 	FreshCorpus bool
@@ -183,6 +186,14 @@ func DrawProgram(t *rapid.T, e *Env, o DrawOpts, onReject func(label, why string
 			cur = e.Load(Sources(ce.p))
 		}
 		pc.Origin = "corpus:" + ce.Name()
+	}
+	if pc.Origin == "kernels" && !o.NoSplit && len(cur.Files) == 1 && rapid.IntRange(0, 3).Draw(t, "splitFiles") == 0 {
+		if next, ok := splitFiles(t, e, cur); ok {
+			cur = next
+			pc.Muts = append(pc.Muts, "split-files")
+		} else if onReject != nil {
+			onReject("split-files", "the split package does not type-check")
+		}
 	}
 	muts := Mutators
 	if len(o.Mutators) > 0 {
@@ -311,4 +322,39 @@ func ParamCheckers(params map[string]string) []*linter.CheckerInfo {
 		}
 	}
 	return out
+}
+
+// splitFiles distributes the top-level declarations of a single-file kernel program over 2-3
+// files of the same package (each with exactly the imports it needs): declarations and their
+// uses, same-named local types, constants and the calls that take them end up in different files,
+// which is what per-file state, caches that outlive a file and positions taken from objects
+// instead of syntax have to cope with.
+func splitFiles(t *rapid.T, e *Env, p *core.Program) (*core.Program, bool) {
+	chunks, ok := SplitChunks(p.Fset, p.Files[0], p.Srcs[0])
+	if !ok || len(chunks) < 3 {
+		return nil, false
+	}
+	n := rapid.IntRange(2, 3).Draw(t, "nsplit")
+	bodies := make([]strings.Builder, n)
+	for _, c := range chunks[1:] {
+		k := rapid.IntRange(0, n-1).Draw(t, "splitTo")
+		bodies[k].WriteString(strings.Join(c.Lines, "\n"))
+		bodies[k].WriteString("\n")
+	}
+	var srcs []core.Source
+	for k := range bodies {
+		body := bodies[k].String()
+		if strings.TrimSpace(body) == "" {
+			continue
+		}
+		srcs = append(srcs, core.Source{Name: fmt.Sprintf("k%d.go", k), Text: MinimalHeader(p.Files[0].Name.Name, body) + "\n" + body})
+	}
+	if len(srcs) < 2 {
+		return nil, false
+	}
+	next := e.Load(srcs)
+	if !next.OK() {
+		return nil, false
+	}
+	return next, true
 }
